@@ -3,6 +3,7 @@
 //!   vh check <Cxx> [--tier quick|thorough] [--replay <file>]
 //!   vh worker <Cxx> <tier> <seed> <shard> <nshards> <outdir> <pass> <deadline_s>     (internal)
 
+#![allow(dead_code)]
 mod common;
 mod e1;
 mod e2;
